@@ -414,7 +414,7 @@ func ptrNow() *time.Time {
 func runMachine(t *rapid.T) {
 	nVal := rapid.IntRange(1, 5).Draw(t, "validators")
 	cfg := node.Config{Genesis: node.EqualGenesis(nVal), BatchSize: rapid.IntRange(nVal, nVal+2).Draw(t, "batch"),
-		MaxBlockCache: rapid.SampledFrom([]int{3, 515}).Draw(t, "cache"), KeepEvents: rapid.SampledFrom([]int{-1, 2, 300}).Draw(t, "keepEvents")}
+		MaxBlockCache: rapid.SampledFrom([]int{3, 515}).Draw(t, "cache"), KeepEvents: rapid.SampledFrom([]int{-1, 2, 300, node.KeepEventsNone}).Draw(t, "keepEvents")}
 	var fs *countFS
 	if rapid.IntRange(0, 2).Draw(t, "crashable") == 0 {
 		fs = newCountFS()
